@@ -45,12 +45,13 @@ func (pattern glob) Match(str string) bool {
 	var starIdx, matchIdx int = -1, -1
 
 	for j < len(str) {
-		if i < len(pattern) && (pattern[i] == str[j] || pattern[i] == '\\' && i+1 < len(pattern) && pattern[i+1] == str[j]) {
-			// characters match or if there's an escaped character that matches
-			if pattern[i] == '\\' {
-				// skip the escape character
-				i++
-			}
+		if i < len(pattern) && pattern[i] == '\\' && i+1 < len(pattern) && pattern[i+1] == str[j] {
+			// an escaped character of the pattern that matches: skip the escape character too
+			i += 2
+			j++
+		} else if i < len(pattern) && pattern[i] != '*' && pattern[i] != '\\' && pattern[i] == str[j] {
+			// plain characters match (an unescaped '*' or '\' in the pattern never stands for itself,
+			// whatever the string holds at this position)
 			i++
 			j++
 		} else if i < len(pattern) && pattern[i] == '*' {
